@@ -103,11 +103,25 @@ let show_tokens (ts : (n list * n) list) =
 let join0 (vs : n list list) =
   hex_of_bytes (List.concat (List.mapi (fun i v -> if i = 0 then v else N0 :: v) vs))
 
+let show_roundtrip (ts : (n list * n) list) =
+  let toks = List.map (fun (v, ty) -> { value = v; ttype = ty }) ts in
+  let ((k, mi), rt) = roundtrip_report toks in
+  let idx = (match mi with
+    | Done [] -> "nil"
+    | Done l -> hex_of_bytes l
+    | Err e -> "err:" ^ err_name e
+    | Panic p -> "panic:" ^ panic_name p) in
+  let r = (match rt with
+    | RtNone -> "none" | RtOk -> "ok" | RtErr e -> "err:" ^ err_name e | RtPanic -> "panic"
+    | RtLossy ts' -> "lossy:" ^ String.concat "," (List.map (fun t -> hex_of_bytes t.value ^ ":" ^ string_of_int (int_of_n t.ttype)) ts')) in
+  Printf.sprintf "kind=%d idx=%s rt=%s" (int_of_n k) idx r
+
 let show_password (ts : (n list * n) list) ent consumed =
   let atoms = List.filter_map (fun (v, ty) -> if int_of_n ty = 1 then Some v else None) ts in
   let seps = List.filter_map (fun (v, ty) -> if int_of_n ty = 0 then Some v else None) ts in
-  Printf.sprintf "ok %s str=%s atoms=%s seps=%s ent=%s consumed=%d" (show_tokens ts)
+  Printf.sprintf "ok %s str=%s atoms=%s seps=%s ent=%s consumed=%d %s" (show_tokens ts)
     (hex_of_bytes (List.concat (List.map fst ts))) (join0 atoms) (join0 seps) (show_entropy ent) consumed
+    (show_roundtrip ts)
 
 let run_case fam t =
   match fam with
@@ -134,6 +148,16 @@ let run_case fam t =
       Printf.sprintf "alphabet=%s count=%s ent=%s sp=%s/%s stable=1 %s" (hex_of_bytes a)
         (hexz (zar_of_z c)) (show_entropy e) (hexz (zar_of_z c)) (hexz (zar_of_z den))
         (render_diag (ed @ ed @ ed @ ed))
+  | "token" ->
+      let ts = next_list t (fun t -> let v = next_bytes t in let ty = next_n t in (v, ty)) in
+      show_roundtrip ts ^ " " ^ no_diag
+  | "tokenize" ->
+      let pw = next_bytes t in
+      let idx = next_bytes t in
+      (match tokenize pw idx with
+       | Done ts -> Printf.sprintf "ok %s entok=1 %s" (show_tokens (List.map (fun tk -> (tk.value, tk.ttype)) ts)) no_diag
+       | Err e -> Printf.sprintf "err %s %s" (err_name e) no_diag
+       | Panic p -> Printf.sprintf "panic %s %s" (panic_name p) no_diag)
   | _ -> failwith ("unknown family " ^ fam)
 
 let () =
